@@ -149,6 +149,7 @@ var echoHooks = []hookT{
 var failHooks = []hookT{
 	{name: "backend-unavailable", failMode: "error"},
 	{name: "backend-no-queued-leaf", failMode: "nil-leaf"},
+	{name: "backend-queued-leaf-without-leaf", failMode: "nil-inner-leaf"},
 	{name: "backend-leaf-trailing-byte", failMode: "trailing"},
 	{name: "backend-leaf-truncated", failMode: "truncated"},
 }
@@ -330,6 +331,8 @@ func (c *checker) run(j job) {
 					return nil, gstatus.Errorf(codes.Unavailable, "backend down")
 				case "nil-leaf":
 					return &trillian.QueueLeafResponse{}, nil
+				case "nil-inner-leaf":
+					return &trillian.QueueLeafResponse{QueuedLeaf: &trillian.QueuedLogLeaf{}}, nil
 				}
 				ts := h.tsAbs
 				if ts == 0 {
@@ -697,7 +700,7 @@ func TestCheck(t *testing.T) {
 	r.Rule(fmt.Sprintf("PKI shapes: leaf key {p256,p384,rsa2048,ed25519} x direct-issuer key {p256,p384,rsa2048,ed25519} (the up to four CAs of one hierarchy use four different algorithms; own root per hierarchy) x 0..3 intermediates x entry kind {certificate, precertificate by the direct issuer, precertificate by a dedicated signing certificate with CT EKU (1..3 intermediates, final issuer = next CA or the root)} x signing certificate with/without AKI x leaf with/without AKI x 0..3 other extensions {SAN, critical keyUsage, private} x AKI first/last among them x poison at every position (first, each middle, last); serial numbers with and without a leading 00 octet; plus NotAfter at the UTCTime/GeneralizedTime boundary (2049-12-31T23:59:59Z, 2050-01-01), plus ordinary issuing CAs that carry a serverAuth/clientAuth EKU extension. %d leaf certificates in %d hierarchies. "+
 		"Phase S: every shape x {root omitted, root included} x log key %v x clock {1 ms, 1700000000.123999999 s, 2^31 s, 2^41 ms} (quick: one clock per (shape, form, log key), rotating; thorough: all four), first submission and a resubmission 7.0035 s later. "+
 		"Phase H: on the reduced set (every kind x depth x AKI combination x {poison first of 4, poison last of 2, poison only}; %d shapes) every history of 3 submissions over {resubmit, resubmit through the other root form} x {backend sequences before, not}, plus histories submitting a second precertificate with the same de-poisoned TBSCertificate, at %s. "+
-		"Phase K/N: reduced set x backend hook {echoes the same entry with timestamp 1 / clock-1 ms / clock+1000 ms / one day older with extensions abcd; status AlreadyExists or OK; Unavailable; no queued leaf; leaf with trailing byte; truncated leaf} and the endpoint of the other entry kind. "+
+		"Phase K/N: reduced set x backend hook {echoes the same entry with timestamp 1 / clock-1 ms / clock+1000 ms / one day older with extensions abcd; status AlreadyExists or OK; Unavailable; no queued leaf; queued leaf without leaf; leaf with trailing byte; truncated leaf} and the endpoint of the other entry kind. "+
 		"distinct_nontrivial = distinct (shape, form, log key, clock, history, submission index, backend behaviour) answered 200 and judged by all five oracles, plus distinct expected refusals judged by oracle 5",
 		len(w.shapes), len(w.hiers), lkn, len(red), map[bool]string{false: "one of the four first clocks per (shape, form), rotating", true: "each of the four first clocks"}[th]))
 	r.Assume(
